@@ -13,6 +13,18 @@ CHECKS = {
          "implementation on the same seeded folds (all kinds, lengths to 2^32, both methods, options).",
          "Trusted: Lean kernel; extract.py's expression translation; harness canonicalisation; NumPy unique/int64 casts; "
          "IEEE exactness of log2 on exact powers of two.", "DESIGN.md section 6 (C07)"),
+ "C05": ("Lean 4 model of the CSR+names+props database with refinement theorems to a list of rows + differential correspondence on histories",
+         "Machine-checked theorems (Props/C05.lean) over the database model (matrix rows, names, separately maintained name index, property "
+         "columns): the invariant holds over every history, each operation's abstract effect is the list-of-rows effect, reads return no new state. "
+         "Tied to the code by dumping every live database after every step of seeded histories and comparing with the model, and by observing "
+         "db[i], db[name], the name index and iteration against a plain list-of-rows oracle.",
+         "Trusted: Lean kernel; SciPy CSR vstack/slicing/sum_duplicates, NumPy savez/load and pickle enter as their meaning and are compared on every run.",
+         "DESIGN.md section 6 (C05)"),
+ "C16": ("Lean 4 atomic-refusal theorems on the database model + differential correspondence with injected faults",
+         "Machine-checked theorems (Props/C16.lean): add/set_prop/update_props refuse exactly the batches carrying a wrong level, wrong length, "
+         "missing property or wrong column length at any position, and a refusal returns the database unchanged in every component. Tied to the code "
+         "by histories with one injected fault per batch (kind x position) and full state dumps before/after.",
+         "Trusted: Lean kernel; harness dumps; SciPy/NumPy primitives compared on every run.", "DESIGN.md section 7 (C16)"),
  "C09": ("Lean 4 theorems on the equality model + differential correspondence",
          "Machine-checked theorems (Props/C09.lean): == decides content equality on the model of Fingerprint.__eq__/CountFingerprint.__eq__ "
          "(hence reflexive, symmetric, transitive, != its negation, never an error within a kind family); copies equal. Tied to the code "
